@@ -1394,6 +1394,43 @@ pub unsafe extern "C" fn statx(dirfd: c_int, path: *const c_char, flags: c_int, 
     }
 }
 
+/// `realpath` (std::fs::canonicalize) against the simulated file system (no symbolic links there).
+#[no_mangle]
+pub unsafe extern "C" fn realpath(path: *const c_char, resolved: *mut c_char) -> *mut c_char {
+    match ctx() {
+        Ctx::Real => real!(realpath: fn(*const c_char, *mut c_char) -> *mut c_char)(path, resolved),
+        c => {
+            let _g = Guard::new();
+            let p = cstr_bytes(path);
+            let s = sim();
+            let pid = match c {
+                Ctx::Child => child_ctx().pid,
+                _ => PARENT_PID,
+            };
+            let r = s.k.k_stat(pid, &p).and_then(|_| {
+                let cwd = s.k.proc(pid).cwd.clone();
+                s.k.normalize(&cwd, &p)
+            });
+            match r {
+                Ok(full) => {
+                    let out = if resolved.is_null() { libc::malloc(full.len() + 1) as *mut c_char } else { resolved };
+                    if out.is_null() {
+                        set_errno(libc::ENOMEM);
+                        return std::ptr::null_mut();
+                    }
+                    std::ptr::copy_nonoverlapping(full.as_ptr() as *const c_char, out, full.len());
+                    *out.add(full.len()) = 0;
+                    out
+                }
+                Err(e) => {
+                    set_errno(e);
+                    std::ptr::null_mut()
+                }
+            }
+        }
+    }
+}
+
 #[no_mangle]
 pub unsafe extern "C" fn access(path: *const c_char, mode: c_int) -> c_int {
     match ctx() {
